@@ -394,6 +394,11 @@ class Run:
                     elif op[0] == "R":
                         self.quiesce(); self.drain_trace()
                         self.restart()
+                    elif op[0] == "KR":
+                        # kill + restart while flushes are still pending (the flush worker is typically parked): the WAL
+                        # thread has written everything, several log files are live
+                        self.eng.cmd("!wal_drained 1500"); self.drain_trace()
+                        self.restart()
                     elif op[0] == "X":
                         self.eng.cmd(f"!arm_abort {op[1]} {op[2]}")
                     elif op[0] == "C":
